@@ -81,6 +81,14 @@ def check_config(cfg, w, rep):
         ai = [i for i, ty in enumerate(ins) if ty == "ssri::Algorithm"]
         if not ai:
             continue
+        forwards = 0
+        for b, blk, t, g in prog.local_calls(lf):
+            gi = [i for i, ty in enumerate(g.outer.j.get("sig_inputs", [])) if ty == "ssri::Algorithm"]
+            if gi and w.sym.of_operand(b, t.args[gi[0]]) == ("param", lf.path, ai[0], ()):
+                forwards += 1
+        if forwards == 0:
+            rep.violation("a-with-algo-unused:%s" % fn_key(lf), "`%s` never passes its algorithm parameter on: the data would be hashed with the default algorithm instead of the requested one" % short(lf.path),
+                          loc=lf.body.loc(), config=cfg, rule="a-with-algo")
         for b, blk, t, g in prog.local_calls(lf):
             gi = [i for i, ty in enumerate(g.outer.j.get("sig_inputs", [])) if ty == "ssri::Algorithm"]
             if not gi:
